@@ -12,8 +12,11 @@ static bool step(Ctx& c, const json& s, int idx) {
 	ok = ops_image(c, s, idx, handled); if (handled) return ok;
 	ok = ops_misc(c, s, idx, handled); if (handled) return ok;
 	Proto::mismatch(PROP + "." + s["op"].get<std::string>(), "unknown-op", CURSCN); return false; }
+// C18: with VERIF_STACK_PAINT=<byte> the stack below the interpreter is filled with that byte before every step, so that an automatic
+// variable the library leaves (partly) uninitialised holds different garbage in different environments
+__attribute__((noinline)) static void paint_stack(unsigned char v) { volatile unsigned char a[192 * 1024]; for (std::size_t i = 0; i < sizeof a; ++i) a[i] = v; }
 int main(int argc, char** argv) {
-	Proto::init(argc, argv); std::string path, work;
+	Proto::init(argc, argv); std::string path, work; const char* paintEnv = getenv("VERIF_STACK_PAINT"); const int paint = paintEnv ? atoi(paintEnv) : -1;
 	for (int i = 1; i + 1 < argc; ++i) { std::string a = argv[i], v = argv[i + 1]; if (a == "--scenarios") path = v; else if (a == "--workdir") work = v; else if (a == "--prop") PROP = v; else if (a == "--log") { LOGPATH = v; LOGF.open(v, std::ios::app); }
 		else if (a == "--skip-sites") { std::string x; for (char ch : v + ",") { if (ch == ',') { if (!x.empty()) SKIP_SITES.insert(x); x.clear(); } else x.push_back(ch); } } }
 	std::ifstream f(path); std::string line; long long k = 0, executed = 0, steps = 0;
@@ -21,6 +24,6 @@ int main(int argc, char** argv) {
 		json sc = json::parse(line); CURSCN = "scenario " + std::to_string(id) + " id=" + sc["id"].dump();
 		if (!Proto::begin_case(id, PROP + ".scenario", CURSCN)) continue;
 		ROOT = work + "/s" + std::to_string(id); fs::remove_all(ROOT); fs::create_directories(ROOT);
-		{ Ctx c; int idx = 0; for (auto& s : sc["steps"]) { ++steps; if (!step(c, s, idx++)) break; } }
+		{ Ctx c; int idx = 0; for (auto& s : sc["steps"]) { ++steps; if (paint >= 0) paint_stack((unsigned char)paint); if (!step(c, s, idx++)) break; } }
 		fs::remove_all(ROOT); ++executed; }
 	Proto::summary({{"scenarios", executed}, {"cases", k}, {"steps", steps}}); return 0; }
